@@ -100,8 +100,13 @@ fn skip_typed(o: &Object) -> bool {
     o.type_name().map(|n| SKIP_TYPES.contains(&n)).unwrap_or(false)
 }
 
+/// max_id as save sees it: raised to the largest object number (first statement of save_internal)
+fn raised_max_id(doc: &Document) -> u32 {
+    doc.objects.keys().map(|id| id.0).max().map_or(doc.max_id, |m| m.max(doc.max_id))
+}
+
 fn savable(doc: &Document) -> Result<(), String> {
-    if doc.max_id >= u32::MAX - 1 {
+    if raised_max_id(doc) >= u32::MAX - 1 {
         return Err("max_id + 2 overflows u32".into());
     }
     if !doc.binary_mark.iter().all(|&b| b >= 128) {
@@ -118,8 +123,9 @@ fn savable(doc: &Document) -> Result<(), String> {
     }
     let mut nums = BTreeSet::new();
     for (&(id, _gen), o) in &doc.objects {
-        if id == 0 || id > doc.max_id {
-            return Err("object number 0 or above max_id".into());
+        // (an object number above max_id is in the domain: save raises max_id)
+        if id == 0 {
+            return Err("object number 0".into());
         }
         if !nums.insert(id) {
             return Err("two generations of one object number".into());
@@ -241,6 +247,10 @@ fn verdict(doc: &Document, stream: bool, c: &Cycle) -> String {
     let loaded_stream = matches!(ld1.reference_table.cross_reference_type, XrefType::CrossReferenceStream);
     if loaded_stream != stream {
         return "FAIL the loaded document does not remember the cross-reference format".into();
+    }
+    // every stream-format cycle uses a fresh object number for its cross-reference stream (cycles_fit)
+    if stream && raised_max_id(doc) >= u32::MAX - 2 {
+        return "ok".into();
     }
     match &c.save2 {
         Some((SaveRes::Saved(_), _)) => {}
